@@ -185,12 +185,14 @@ func (lv LiteralValue) EmptyCompletionData(ctx context.Context, nextPlaceholder 
 				}
 			}
 
-			newText += fmt.Sprintf("%s%q = %s\n",
+			// the key is meant literally, not as a template
+			key := fmt.Sprintf("%q", escapeTemplateSequences(name))
+			newText += fmt.Sprintf("%s%s = %s\n",
 				strings.Repeat("  ", nestingLevel+1),
-				name, cData.NewText)
-			snippet += fmt.Sprintf("%s%q = %s\n",
+				key, cData.NewText)
+			snippet += fmt.Sprintf("%s%s = %s\n",
 				strings.Repeat("  ", nestingLevel+1),
-				name, cData.Snippet)
+				escapeSnippetText(key), cData.Snippet)
 			lastPlaceholder = cData.NextPlaceholder
 		}
 		newText += fmt.Sprintf("%s}", strings.Repeat("  ", nestingLevel))
